@@ -21,7 +21,13 @@ def stateAfter (fixes : String) : Option HolidayState :=
   if fixes == "-" then some initHolidayState
   else (fixes.splitOn ";").foldl (fun st dt => match st with
     | none => none
-    | some st => fix st none dt.toList) (some initHolidayState)
+    | some st =>
+      -- `N<k>@<dt>`: the built-in names plus k custom ones ("X1".."Xk") are passed with this call
+      match dt.splitOn "@" with
+      | [pre, rest] =>
+        let k := (pre.drop 1).toNat!
+        fix st (some (Gen.Tables.HolidayUtil.NAMES ++ (List.range k).map fun j => s!"X{j + 1}")) rest.toList
+      | _ => fix st none dt.toList) (some initHolidayState)
 
 def opsHoliday : List (String × Handler) := [
   ("hol.day", fun args _ => match args with
